@@ -19,7 +19,7 @@ package mice
 // record with flag 0 (then nextProof becomes nil). On error nothing is
 // exposed.
 //@ func (*decoder).readNextRecord
-//@   props C15 C10
+//@   props C15 C14 C10
 //@   requires d.r != nil && d.nextProof != nil && len(d.nextProof) == 32 && d.recordSize >= 1 && len(d.recordBuf) == d.recordSize + 32 && len(d.out) == 0
 //@   requires base(d.recordBuf) != base(d.nextProof) && d.recordBuf != nil
 //@   ensures[not-last-validated] result == nil && d.nextProof != nil ==> recOK(bytes(d.recordBuf), old(bytes(d.nextProof)), false) && len(d.out) == d.recordSize && len(d.nextProof) == 32 && (forall i int :: 0 <= i && i < 32 ==> d.nextProof[i] == d.recordBuf[d.recordSize + i])
@@ -40,7 +40,7 @@ package mice
 // validation). Clean end-of-stream is reported only when no proof is pending
 // (the last record was validated), or by the draft-02 empty final record.
 //@ func (*decoder).Read
-//@   props C15 C10
+//@   props C15 C14 C10
 //@   returns (n, err)
 //@   requires d.nextProof != nil ==> decReady(d)
 //@   requires base(dst) != base(d.recordBuf) && base(dst) != base(d.nextProof) && base(dst) != base(d.out)
@@ -58,7 +58,7 @@ package mice
 // NewDecoder: the record size is read from the stream (8 bytes) and refused
 // if zero or above the caller's limit, before any record is read.
 //@ func (Encoding).NewDecoder
-//@   props C15 C10
+//@   props C15 C14 C10
 //@   returns (rd, err)
 //@   requires r != nil
 //@   requires maxRecordSize <= 4294967296
